@@ -21,6 +21,7 @@ type Job struct {
 	CompFailAfter int       `json:"comp_fail_after"`
 	Bufio         int       `json:"bufio,omitempty"` // 1..3: render into the runner's long-lived bufio.Writer number Bufio
 	GC            bool      `json:"gc,omitempty"`    // empty the sync.Pools first
+	ToGoHTML      bool      `json:"to_go_html,omitempty"`
 }
 
 // Plain returns a job without faults.
